@@ -6,7 +6,6 @@ From AV Require Import Base.Bytes Base.Outcome Hash.HashModel Tree.Heap Tree.Ops
 Open Scope string_scope.
 Open Scope list_scope.
 Open Scope N_scope.
-Set Default Timeout 120.
 
 Notation garb := obs_eq_upto_garbage.
 
